@@ -1,6 +1,6 @@
 """C01 -- parsing is faithful: the library returned denotes exactly the source program.
 Proof: Properties/C01.v (precedence table regenerated from parser.rs equals the IEC 61131-3 B.3.1 table; the model of the
-expression / statement parser returns the erasure of every well-formed spelled tree -- see Stage B in DESIGN.md).
+expression / statement parser returns the erasure of every well-formed spelled expression tree).
 Tie: regenerated precedence table; model parser vs parse_program on generated expressions and statements.
 Search: AST-level generator with an independent expected tree; every unit in several spellings; every ordered operator pair in
 both association shapes; every statement form nested in every statement form."""
@@ -99,6 +99,44 @@ def search(run, info):
                 tag, "canonical" if si == 0 else "random", d[-300:]), {"input": {"text": text}, "family": tag, "difference": d[-600:]})
         if (ii * 7 + si) % 400 == 0:
             run.sample({"family": tag, "source": text[:160]})
+    # ---- correspondence of the Coq expression parser (the subject of C01_expression_faithful) with parse_program ----
+    import gen_prog
+    nexpr = 400 if run.tier == "quick" else 6000
+    exprs = [ast_common.model_expr(rng, rng.choice([2, 3, 4, 5])) for _ in range(nexpr)]
+    ecases = []
+    emeta = []
+    for e in exprs:
+        g = gen_ast.Gen(rng, redundant_parens=True)
+        lx = g.spell(e, 0)
+        for sp in (None, gen_prog.Spelling(rng, respell=True, nonascii=False)):
+            etext = gen_prog.render(lx, sp).strip("\n") if sp is None else gen_prog.render(lx, sp)
+            ptext = "PROGRAM p\nr := " + etext + " ;\nEND_PROGRAM\n"
+            emeta.append((e, etext, ptext))
+            ecases.append({"id": len(ecases), "op": "parse", "text": hexs(ptext)})
+    eres = vlib.run_impl(ecases, wd, per_case_timeout=20)
+    emodel = vlib.run_model([("expr", i, ["parse", hexs(m[1])]) for i, m in enumerate(emeta)], wd) if info.get("extract_ok") else {}
+    for i, ((e, etext, ptext), r) in enumerate(zip(emeta, eres)):
+        run.count(("expr", etext), True, "expression-model")
+        want = ast_common.sexp_of_expr(e)
+        got = None
+        if "ok" in r:
+            tr = debugtree.compact(debugtree.norm(debugtree.parse(r["ok"])))
+            try:
+                got = ast_common.sexp_of_tree(tr[1]["elements"][0][1]["body"][1]["body"][0][1]["value"])
+            except Exception:
+                got = None
+        if got != want:
+            run.violation("impl-violates-property", "expression %r is parsed as %s, it means %s" % (etext[:120], got, want),
+                          {"input": {"text": ptext}, "family": "expression-model", "difference": "%s vs %s" % (got, want)})
+            continue
+        mo = emodel.get(str(i))
+        if mo:
+            run.cov["traces_validated_against_impl"] += 1
+            mtree = mo[1].replace("_", "") if mo[0] == "ok" and len(mo) > 1 else mo[0]
+            if mtree != got:
+                run.cov["disagreements_checked"] += 1
+                run.violation("correspondence", "expression parser model and parse_program disagree on %r: model %s, parser %s" % (etext[:100], mtree, got),
+                              {"input": {"text": ptext}}, no_input=True)
     return {"coverage": {
         "rule": "units from the AST-level generator (TYPE blocks with enumeration / alias / subrange / array / simple / string / structure / "
                 "structure-initialization declarations; FUNCTION / FUNCTION_BLOCK / PROGRAM with every VAR class x qualifier x ten initialiser "
